@@ -35,7 +35,7 @@ var passThroughPrefixes = []string{
 	"io.LimitReader", "bufio.New", "net/url.", "(*net/url.URL).", "strconv.", "(*strings.", "(*bytes.", "os.ExpandEnv",
 	"tools.ExpandPath", "tools.ExpandConfigPath", "tools.ResolveSymlinks", "tools.CanonicalizePath", "tools.CanonicalizeSystemPath", "tools.TrimCurrentPrefix",
 	"io.NopCloser", "errors.Wrap", "errors.New", "io.NewSectionReader", "tools.NewRetriableReader", "tools.NewBodyWithCallback",
-	"tools.NewHashingReader", "(*os.File).Name", "(*github.com/leonelquinteros/gotext.Locale).Get", "errors.Errorf", "errors.Wrapf", "(time.Time).",
+	"tools.NewHashingReader", "(*os.File).Name", "(*github.com/leonelquinteros/gotext.Locale).Get", "errors.Errorf", "errors.Wrapf", "(time.Time).", "(*net/http.Request).WithContext", "(*net/http.Request).Clone", "context.WithValue",
 }
 
 func isPassThrough(name string) bool {
@@ -51,14 +51,14 @@ func isPassThrough(name string) bool {
 // value reached, before descending; returning Stop makes that value a leaf.
 func (p *Prog) Leaves(v ssa.Value, visit func(ssa.Value) FlowAct) []ssa.Value {
 	f := &flowWalk{p: p, seen: map[ssa.Value]bool{}, visit: visit, fields: true}
-	f.walk(v, 3, nil)
+	f.walk(v, 5, nil)
 	return f.leaves
 }
 
 // LeavesNoFields is Leaves without following struct-field stores program-wide.
 func (p *Prog) LeavesNoFields(v ssa.Value, visit func(ssa.Value) FlowAct) []ssa.Value {
 	f := &flowWalk{p: p, seen: map[ssa.Value]bool{}, visit: visit, fields: false}
-	f.walk(v, 3, nil)
+	f.walk(v, 5, nil)
 	return f.leaves
 }
 
